@@ -17,16 +17,16 @@ theorem C03_ctx (B A M : Nat) (ls : List (Bool × α)) :
     `filterLineWithLContext`, `lContextNotMatched`, `lContextProcessBefore`, `lContextProcessMaxCount` of
     internal/io/fs/readfilelcontext.go, translated on this run (the raw lines are a list, `ls.beforeBuf` is a bounded queue,
     what is sent on `lines` is kept, the context is never cancelled): for every list of raw lines, every expression verdict
-    and every `before`, `after`, `max` (no bound on any, fuel above `before` for the drain loop), the function returns
+    and every `before`, `after`, `max` (`before` within what `make(chan, n)` accepts — beyond it the recorded finding of C10 applies, `C10_generated_huge_before_panics` —, fuel above `before` for the drain loop), the function returns
     normally — no index out of range, no queue operation that would block for ever — and the contents of the lines it has
     sent are the block specification of grep semantics on the lines with the expression's verdicts. -/
 theorem C03_generated_filter_is_grep (ext : Go.Ext) (ltx : Go.GoLContext) (B A M : Nat)
     (hB : ltx.BeforeContext = (B : Int)) (hA : ltx.AfterContext = (A : Int)) (hM : ltx.MaxCount = (M : Int))
-    (hfuel : B < ext.fuel) (f : Gen.Grep.readFile) (raws : List Bytes) (re : Go.GoRegex) :
+    (hfuel : B < ext.fuel) (hlim : (B : Int) ≤ 35184372088820) (f : Gen.Grep.readFile) (raws : List Bytes) (re : Go.GoRegex) :
     ∃ f', Gen.Grep.readFile.filterWithLContext ext f () ltx raws () re = Outcome.ok f' ∧
       GenGrep.sent f' = GenGrep.sent f ++
         grepSpec B A M (blocks (GenGrep.judged ext re raws)).1 (blocks (GenGrep.judged ext re raws)).2 := by
-  obtain ⟨f', h1, h2⟩ := GenGrep.filter_refines ext ltx B A M hB hA hM hfuel f raws re
+  obtain ⟨f', h1, h2⟩ := GenGrep.filter_refines ext ltx B A M hB hA hM hfuel hlim f raws re
   exact ⟨f', h1, by rw [h2, grun_eq_spec]⟩
 
 /-- one raw line through the translated `filterLineWithLContext` is one step of the model's automaton: the same lines sent,
